@@ -201,6 +201,27 @@ def handle (line : String) : String :=
         | .link l => s!"link:{l}" | .fee f => s!"fee:{f}" | .rdhSeen n => s!"seen:{n}"
         | .rdhFiltered n => s!"filtered:{n}" | .payloadSize n => s!"payload:{n}"
       s!"n={r.packets.length} " ++ joinSp pk ++ " | " ++ joinSp ms
+  | "collect" :: rest =>
+    let mute := rest.head? == some "mute=1"
+    let toks := rest.drop 1
+    let msgs : List Stat := toks.filterMap fun t =>
+      match t.splitOn ":" with
+      | ["e", off, code, tag] => off.toNat?.map fun o => Stat.error { offset := o, code := code, word := some tag.toUTF8.toList }
+      | ["l", n] => n.toNat?.map Stat.link
+      | ["f", n] => n.toNat?.map Stat.feeId
+      | ["s", a, b] => match a.toNat?, b.toNat? with | some x, some y => some (Stat.layerStave x y) | _, _ => none
+      | ["t", n] => n.toNat?.map Stat.triggerType
+      | ["h", n] => n.toNat?.map Stat.hbfs
+      | ["r", n] => n.toNat?.map Stat.rdhSeen
+      | ["p", n] => n.toNat?.map Stat.payloadSize
+      | _ => none
+    if msgs.length != toks.length then "bad-op" else
+    let fin := finalize mute none none (Coll.run 0 {} msgs)
+    let c := fin.coll
+    s!"errors={",".intercalate (fin.errors.map fun f => s!"{f.offset}:{f.code}:{String.fromUTF8! (ByteArray.mk (f.word.getD []).toArray)}")} " ++
+    s!"links={",".intercalate (c.links.map toString)} fees={",".intercalate (c.fees.map toString)} " ++
+    s!"staves={",".intercalate (c.layerStaves.map fun p => s!"{p.1}/{p.2}")} trig={",".intercalate (triggerBits.map fun k => toString (c.trig k))} " ++
+    s!"hbfs={c.hbfs} seen={c.rdhsSeen} payload={c.payload} total={fin.total} codes={",".intercalate fin.uniqueCodes}"
   | "statscmp" :: rest =>
     let a := parseStatsRec (parseKv (rest.takeWhile (· != "||")))
     let b := parseStatsRec (parseKv ((rest.dropWhile (· != "||")).drop 1))
